@@ -809,6 +809,8 @@ def rule_handler_model(ctx, g: Grammar) -> None:
         ("_load", {"values": "aabbccdd", "address": 8, "load_opt": 4}, prog_cmd(8, 4, swap32(0xAABBCCDD), 0)),
         ("_load", {"pattern": 0x55, "address": 8, "load_opt": 4}, prog_cmd(8, 4, 0x55, 0)),
         ("_load", {"pattern": 0x55, "address": 8}, RAISE),
+        ("_load", {"pattern": 0, "address": 8, "load_opt": 4}, prog_cmd(8, 4, 0, 0)),  # fuse word 0 is a value, not "no pattern"
+        ("_prog", {"pattern": 0, "address": 4, "load_opt": 4}, prog_cmd(4, 4, 0, 0)),
         ("_load", {"address": 8}, RAISE),
         # program
         ("_prog", {"values": "1", "address": 4, "load_opt": 4}, prog_cmd(4, 4, swap32(1), 0)),
